@@ -66,6 +66,14 @@ type VC struct {
 	ct     *Contract
 	fresh  int
 	decls  []string
+	// call-site clauses that applied to at least one call (vacuity guard)
+	firedCS map[*Clause]bool
+	// well-formedness facts of values loaded while a clause is evaluated
+	wfCollect *[]Term
+	// memo for patternOKDeep
+	defBodies  map[string]string
+	defBodiesN int
+	defOK      map[string]bool
 	preDecls []string
 	defScopes []*[]string // let scopes for quantifier / spec-function bodies
 	obls   []*Obligation
@@ -617,7 +625,7 @@ func (vc *VC) pickPatterns(body string, bv string) []string {
 			g, ok := vc.gdefs[head]
 			selectOnBv := head == "select" && strings.HasSuffix(term, " "+bv+")") && !strings.Contains(term[:len(term)-len(bv)-2], bv)
 			if (ok && g.Decl != "" && !strings.HasPrefix(g.Decl, "(declare-datatypes")) || strings.HasPrefix(head, "elem.") || selectOnBv {
-				if !strings.Contains(term, "(let ") && !seen[term] && patternOK(vc.expandDefs(term)) {
+				if !strings.Contains(term, "(let ") && !seen[term] && vc.patternOKDeep(term) {
 					seen[term] = true
 					pats = append(pats, term)
 				}
@@ -633,6 +641,53 @@ func (vc *VC) pickPatterns(body string, bv string) []string {
 		pats = pats[:4]
 	}
 	return pats
+}
+
+// patternOKDeep: patternOK of the term with every definitional constant
+// expanded, computed without building the expansion (which can be exponential
+// in the depth of merged definitions).
+func (vc *VC) patternOKDeep(term string) bool {
+	if vc.defBodies == nil {
+		vc.defBodies = map[string]string{}
+		vc.defOK = map[string]bool{}
+	}
+	if vc.defBodiesN > len(vc.decls) {
+		vc.defBodiesN = 0
+		vc.defBodies = map[string]string{}
+		vc.defOK = map[string]bool{}
+	}
+	for _, d := range vc.decls[vc.defBodiesN:] {
+		if strings.HasPrefix(d, "(define-fun ") {
+			f := strings.SplitN(d[12:len(d)-1], " ", 4)
+			if len(f) == 4 {
+				vc.defBodies[f[0]] = f[3]
+			}
+		}
+	}
+	vc.defBodiesN = len(vc.decls)
+	var ok func(t string, depth int) bool
+	ok = func(t string, depth int) bool {
+		if !patternOK(t) || depth > 200 {
+			return false
+		}
+		for _, tok := range strings.FieldsFunc(t, tokenSplit) {
+			body, isDef := vc.defBodies[tok]
+			if !isDef {
+				continue
+			}
+			r, seen := vc.defOK[tok]
+			if !seen {
+				vc.defOK[tok] = false // cycles cannot occur, but stay safe
+				r = ok(body, depth+1)
+				vc.defOK[tok] = r
+			}
+			if !r {
+				return false
+			}
+		}
+		return true
+	}
+	return ok(term, 0)
 }
 
 func patternOK(t string) bool {
@@ -673,6 +728,9 @@ func (vc *VC) expandDefs(s string) string {
 		}
 	}
 	for iter := 0; iter < 50; iter++ {
+		if len(s) > 4<<20 {
+			fail("definition expansion exceeds 4 MB (merged definitions nested too deeply to be used in an axiom)")
+		}
 		changed := false
 		var b strings.Builder
 		i := 0
@@ -740,4 +798,11 @@ func sortedKeys(m map[string]bool) []string {
 	}
 	sort.Strings(out)
 	return out
+}
+
+func (vc *VC) fired(cl *Clause) {
+	if vc.firedCS == nil {
+		vc.firedCS = map[*Clause]bool{}
+	}
+	vc.firedCS[cl] = true
 }
